@@ -603,3 +603,269 @@ U_ORDER = Unit(P + '/main[transformation order]', ['main'], t_apply_order, SCH,
                          Canary('transformations-in-option-order', 'main', _NoSortKey, [P + '/main[transformation order]/'])])
 
 UNITS = UNITS + [U_ROT, U_TRA, U_SCL, U_ORDER]
+
+
+# ---------------------------------------------------------------- distributed-load readers (skin effect, insulation)
+def distributed_reader(option, loop_text, cls, valid, value_fields):
+    name = '%s/main[%s reader]' % (P, option)
+    lays = list(layouts(valid))
+
+    def thunk(eng):
+        lab, kinds, ok = lays[eng.choose(len(lays))]
+        fields = MS.field_variants(eng, kinds)
+        l = eng.mk_fields(fields)
+        loop = MS.loop_of(eng, loop_text)
+        record, regs = [], []
+        eng.summaries[cls + '.__init__'] = MS.raising_summary(record, cls)
+
+        def reg(e, a, k):
+            if e.choose(2) == 1:
+                raise PyRaise('ValueError', ('register_load rejects',))
+            regs.append(list(a))
+        eng.summaries['Mininec.register_load'] = reg
+        m = SObj('Mininec', label='m')
+        geo = SObj('Geo_Container', label='geo')
+        m.fields['geo'] = geo
+        wires = [SObj('Wire', label='w%d' % k) for k in range(2)]
+        eng.summaries['Geo_Container.__iter__'] = lambda e, a, k: SList([('conc', list(wires))])
+        eng.schema[('Geo_Container', 'by_tag')] = 'dict:obj:Wire'
+        by_tag = eng.getfield(geo, 'by_tag')
+        env = {'l': l, 'm': m, 'f_err': AStr([('lit', '<stderr>')])}
+        out = MS.run_stmts(eng, loop.body, env)
+        eng.cover('%s-%s' % (option, lab))
+        MS.containment(eng, name + '/' + lab, out)
+        if not ok:
+            eng.oblige(name + '/' + lab + '/is-rejected-and-nothing-registered', out.kind == 'return' and not regs)
+            return
+        if out.kind != 'normal':
+            return
+        vals = [f[0] for f in fields]
+        tagged = len(vals) == len(valid[-1])
+        nv = len(value_fields)
+        if tagged:
+            okc = len(record) == 1 and len(regs) == 1
+            eng.oblige(name + '/' + lab + '/tagged-form:-one-load-on-the-object-with-that-tag', okc)
+            if okc:
+                _, a, kw, o = record[0]
+                w = a[0]
+                eng.oblige(name + '/' + lab + '/tagged-form:-the-object-is-looked-up-by-the-last-field',
+                           isinstance(w, SObj) and bterm(b_and(SV(eng.dict_has(by_tag, term(vals[-1])), 'bool'),
+                                                               SV(w.ident == eng.dict_get(by_tag, term(vals[-1])).ident, 'bool'))))
+                eng.oblige(name + '/' + lab + '/tagged-form:-not-marked-all-wires', not kw.get('all_wires', False))
+                eng.oblige(name + '/' + lab + '/registered-for-all-pulses-of-that-object',
+                           regs[0][1] is o and regs[0][2] is None and bterm(eng.values_equal(regs[0][3], eng.getfield(w, 'tag'))))
+        else:
+            okc = len(record) == len(wires) and len(regs) == len(wires)
+            eng.oblige(name + '/' + lab + '/untagged-form:-one-load-per-object', okc)
+            if okc:
+                for (_, a, kw, o), r, w in zip(record, regs, wires):
+                    eng.oblige(name + '/' + lab + '/untagged-form:-marked-all-wires-and-registered-on-its-own-object',
+                               a[0] is w and kw.get('all_wires') is True and r[1] is o and r[2] is None
+                               and bterm(eng.values_equal(r[3], eng.getfield(w, 'tag'))))
+        if record:
+            _, a, kw, o = record[0]
+            got = [kw[n_] if n_ in kw else a[1 + k] if 1 + k < len(a) else None for k, n_ in enumerate(value_fields)]
+            eng.oblige(name + '/' + lab + '/values-reach-the-constructor-in-their-documented-positions',
+                       all(g is not None for g in got) and bterm(b_and(*[eng.values_equal(g, v) for g, v in zip(got, vals[:nv])])))
+    return Unit(name, ['main'], thunk, SCH, slices={'main': 'body of the loop over %s' % loop_text},
+                notes='the container is iterated as two objects (bounded shape, irrelevant to containment)')
+
+
+U_SKC = distributed_reader('--skin-effect-conductivity', 'args.skin_effect_conductivity', 'Skin_Effect_Load',
+                           [[(F, 'sigma')], [(F, 'sigma'), (I, 'tag')]], ['conductivity'])
+U_SKR = distributed_reader('--skin-effect-resistivity', 'args.skin_effect_resistivity', 'Skin_Effect_Load',
+                           [[(F, 'rho')], [(F, 'rho'), (I, 'tag')]], ['resistivity'])
+U_INSR = distributed_reader('--insulation-load', 'args.insulation_load', 'Insulation_Load',
+                            [[(F, 'radius'), (F, 'eps')], [(F, 'radius'), (F, 'eps'), (I, 'tag')]], ['radius', 'epsilon_r'])
+
+
+# ---------------------------------------------------------------- --laplace-load-a / -b pairing
+def t_laplace_reader(eng):
+    """statements of main from `laplace = []` through the loop that constructs the Laplace loads; the two option
+    lists have 0..2 entries each (bounded shape), every entry is a list of 1..2 numeric fields, at most one field of the whole input being text or empty."""
+    name = P + '/main[--laplace-load-a/-b reader]'
+    f = eng.get_fnode('main')
+    idx = [k for k, st in enumerate(f.body) if isinstance(st, ast.Assign) and ast.unparse(st.targets[0]) == 'laplace']
+    if not idx:
+        from pyvc.source import Unresolved
+        raise Unresolved('laplace = [] in main')
+    stmts = []
+    for st in f.body[idx[0]:]:
+        stmts.append(st)
+        if isinstance(st, ast.For) and 'Laplace_Load' in ast.unparse(st):
+            break
+    na, nb = eng.choose(3), eng.choose(3)
+
+    bad = eng.choose(1 + na + nb)          # 0: every coefficient numeric; k: entry k-1 (a's first, then b's) has a bad field
+    badkind = [('text', 'x'), ('empty', '')][eng.choose(2)] if bad else None
+
+    def entry(tag, pos, nf):
+        kinds = [(F, '%s%d_%d' % (tag, pos, k)) for k in range(nf)]
+        if bad and pos == bad - 1:
+            kinds[-1] = badkind
+        fields = MS.field_variants(eng, kinds)
+        return fields, eng.mk_fields(fields)
+    A = [entry('a', k, 1 + k % 2) for k in range(na)]
+    B = [entry('b', na + k, 2 - k % 2) for k in range(nb)]
+    record = []
+    eng.summaries['Laplace_Load.__init__'] = MS.raising_summary(record, 'Laplace_Load')
+    loads = SList()
+    env = {'args': MS.args_ns(eng, laplace_load_a=SList([('conc', [x[1] for x in A])]),
+                              laplace_load_b=SList([('conc', [x[1] for x in B])])),
+           'loads': loads, 'f_err': AStr([('lit', '<stderr>')])}
+    out = MS.run_stmts(eng, stmts, env)
+    lab = '%d-a-%d-b' % (na, nb)
+    eng.cover('laplace-' + lab)
+    MS.containment(eng, name + '/' + lab, out)
+    allnum = all(fl[1] == 'float' for flds, _ in A + B for fl in flds)
+    if not allnum:
+        eng.oblige(name + '/' + lab + '/a-non-numeric-coefficient-is-rejected', out.kind == 'return')
+        return
+    if out.kind != 'normal':
+        return
+    n = max(na, nb)
+    okc = len(record) == n and loads.is_concrete() and loads.concrete() == [r[3] for r in record]
+    eng.oblige(name + '/' + lab + '/one-load-per-position-appended-in-order', okc)
+    if okc:
+        for k, (_, a, kw, o) in enumerate(record):
+            ea = [fl[0] for fl in A[k][0]] if k < na else []
+            eb = [fl[0] for fl in B[k][0]] if k < nb else []
+            ga, gb = kw.get('a'), kw.get('b')
+            ok2 = isinstance(ga, SList) and isinstance(gb, SList) and ga.is_concrete() and gb.is_concrete() \
+                and len(ga.concrete()) == len(ea) and len(gb.concrete()) == len(eb)
+            eng.oblige(name + '/' + lab + '/k-th-a-list-is-paired-with-the-k-th-b-list-(missing-one-is-empty)',
+                       ok2 and bterm(b_and(*[eng.values_equal(x, y) for x, y in zip(ga.concrete() + gb.concrete(), ea + eb)])))
+
+
+U_LAPR = Unit(P + '/main[--laplace-load-a/-b reader]', ['main'], t_laplace_reader, SCH,
+              slices={'main': 'statements from `laplace = []` through the loop constructing Laplace_Load objects'},
+              notes='bounded(shape): 0..2 entries per option, 1..2 fields per entry')
+
+
+# ---------------------------------------------------------------- --phi / --theta / --near-field
+def t_angle_reader(eng):
+    name = P + '/main[--phi/--theta reader]'
+    which = eng.choose(2)
+    opt = ('phi', 'theta')[which]
+    lays = list(layouts([[(F, 'start'), (F, 'inc'), (I, 'count')]]))
+    lab, kinds, ok = lays[eng.choose(len(lays))]
+    fields = MS.field_variants(eng, kinds)
+    x = eng.mk_fields(fields)
+    f = eng.get_fnode('main')
+    idx = [k for k, st in enumerate(f.body) if isinstance(st, ast.Assign) and ast.unparse(st.targets[0]) == 'p'
+           and ('args.%s.split' % opt) in ast.unparse(st.value)]
+    if not idx:
+        from pyvc.source import Unresolved
+        raise Unresolved('p = args.%s.split in main' % opt)
+    stmts = []
+    for st in f.body[idx[0]:]:
+        stmts.append(st)
+        if isinstance(st, ast.Try):
+            break
+    record = []
+    eng.summaries['Angle.__init__'] = MS.raising_summary(record, 'Angle')
+    env = {'args': MS.args_ns(eng, **{opt: x}), 'f_err': AStr([('lit', '<stderr>')])}
+    out = MS.run_stmts(eng, stmts, env)
+    lab = opt + '/' + lab
+    eng.cover('angle-' + lab)
+    MS.containment(eng, name + '/' + lab, out)
+    if not ok:
+        eng.oblige(name + '/' + lab + '/is-rejected', out.kind == 'return' and not record)
+        return
+    if out.kind == 'normal':
+        vals = [fl[0] for fl in fields]
+        okc = len(record) == 1 and len(record[0][1]) == 3
+        eng.oblige(name + '/' + lab + '/start-increment-count-reach-Angle-in-order',
+                   okc and bterm(b_and(*[eng.values_equal(a, b) for a, b in zip(record[0][1], vals)])))
+        eng.oblige(name + '/' + lab + '/bound-to-the-right-name',
+                   okc and env.get('azimuth' if which == 0 else 'zenith') is record[0][3])
+
+
+U_ANG = Unit(P + '/main[--phi/--theta reader]', ['main'], t_angle_reader, SCH,
+             slices={'main': 'from `p = args.phi.split (",")` / `p = args.theta.split (",")` through the following try statement'})
+
+
+def t_nearfield_reader(eng):
+    name = P + '/main[--near-field reader]'
+    valid = [[(F, 'x'), (F, 'y'), (F, 'z'), (F, 'dx'), (F, 'dy'), (F, 'dz'), (I, 'nx'), (I, 'ny'), (I, 'nz')]]
+    lays = list(layouts(valid))
+    lab, kinds, ok = lays[eng.choose(len(lays))]
+    fields = MS.field_variants(eng, kinds)
+    x = eng.mk_fields(fields)
+    f = eng.get_fnode('main')
+    st = [s_ for s_ in f.body if isinstance(s_, ast.If) and ast.unparse(s_.test).replace(' ', '') == 'args.near_field']
+    if not st:
+        from pyvc.source import Unresolved
+        raise Unresolved('if args.near_field in main')
+    env = {'args': MS.args_ns(eng, near_field=x), 'nf_count': None, 'f_err': AStr([('lit', '<stderr>')])}
+    out = MS.run_stmts(eng, [st[0]], env)
+    eng.cover('near-field-' + lab)
+    MS.containment(eng, name + '/' + lab, out)
+    if not ok:
+        eng.oblige(name + '/' + lab + '/is-rejected', out.kind == 'return')
+        return
+    if out.kind == 'normal':
+        vals = [fl[0] for fl in fields]
+        got = []
+        for nm_ in ('nf_start', 'nf_inc', 'nf_count'):
+            v = env.get(nm_)
+            got.extend(v.concrete() if isinstance(v, SList) and v.is_concrete() else [None, None, None])
+        eng.oblige(name + '/' + lab + '/start-increment-count-triples-in-order',
+                   len(got) == 9 and all(g is not None for g in got)
+                   and bterm(b_and(*[eng.values_equal(a, b) for a, b in zip(got, vals)])))
+
+
+U_NFR = Unit(P + '/main[--near-field reader]', ['main'], t_nearfield_reader, SCH,
+             slices={'main': 'the statement `if args.near_field: ...`'})
+
+UNITS = UNITS + [U_SKC, U_SKR, U_INSR, U_LAPR, U_ANG, U_NFR]
+
+
+class _SkinNoKeyError(ast.NodeTransformer):
+    def visit_For(self, node):
+        self.generic_visit(node)
+        if ast.unparse(node.iter) == 'args.skin_effect_conductivity':
+            for t in ast.walk(node):
+                if isinstance(t, ast.ExceptHandler) and isinstance(t.type, ast.Tuple):
+                    t.type = ast.Name('ValueError', ast.Load())
+        return node
+
+
+class _InsSwap(ast.NodeTransformer):
+    def visit_Call(self, node):
+        self.generic_visit(node)
+        if ast.unparse(node.func) == 'Insulation_Load' and len(node.args) >= 3:
+            node.args[1], node.args[2] = node.args[2], node.args[1]
+        return node
+
+
+class _LaplaceLastNotNth(ast.NodeTransformer):
+    def visit_Subscript(self, node):
+        self.generic_visit(node)
+        if ast.unparse(node).replace(' ', '') == 'laplace[n]':
+            node.slice = ast.UnaryOp(ast.USub(), ast.Constant(1))
+        return node
+
+
+class _AngleSwap(ast.NodeTransformer):
+    def visit_Call(self, node):
+        self.generic_visit(node)
+        if ast.unparse(node.func) == 'Angle' and len(node.args) == 3:
+            node.args[0], node.args[1] = node.args[1], node.args[0]
+        return node
+
+
+class _NfCountsFloat(ast.NodeTransformer):
+    def visit_Assign(self, node):
+        if ast.unparse(node.targets[0]) == 'nf_count':
+            for t in ast.walk(node.value):
+                if isinstance(t, ast.Name) and t.id == 'int':
+                    t.id = 'float'
+        return node
+
+
+U_SKC.canaries = [Canary('skin-effect-conductivity-without-KeyError-handler', 'main', _SkinNoKeyError, [P + '/main[--skin-effect-conductivity reader]/'])]
+U_INSR.canaries = [Canary('insulation-radius-and-permittivity-swapped', 'main', _InsSwap, [P + '/main[--insulation-load reader]/'])]
+U_LAPR.canaries = [Canary('laplace-b-appended-to-the-last-entry', 'main', _LaplaceLastNotNth, [P + '/main[--laplace-load-a/-b reader]/'])]
+U_ANG.canaries = [Canary('angle-start-and-increment-swapped', 'main', _AngleSwap, [P + '/main[--phi/--theta reader]/'])]
+U_NFR.canaries = [Canary('near-field-counts-read-as-floats', 'main', _NfCountsFloat, [P + '/main[--near-field reader]/'])]
